@@ -50,4 +50,22 @@ theorem translated_pod_str_is_the_model (W P N : Nat) (v src : ByteArray) (hv : 
   ⟨GenS.from_str_eq W P N s, GenS.copy_from_slice_eq W P N v hv src, GenS.copy_from_str_eq W P N v hv s,
    GenS.as_str_eq W P N v hv⟩
 
+/-- `Display` through the translator: the translated `fmt` hands the formatter `from_utf8_lossy(text)` in one piece,
+    never fails on a value of `N` bytes, and — `from_utf8_lossy` being the identity on valid UTF-8, the one assumption about
+    the standard library, stated as the hypothesis `hl` — renders exactly what `as_str()` returns whenever that is `Ok`:
+    the text, not the NUL padding. -/
+theorem translated_display_is_text (W P N : Nat) (lossy : ByteArray → ByteArray)
+    (hl : ∀ b : ByteArray, b.validateUTF8 = true → lossy b = b) (v : ByteArray) (hv : v.size = N) :
+    GenS.fmt W P N lossy v = some (lossy (PodStr.text v)) ∧
+    (∀ t, PodStr.asStr v = some t → GenS.fmt W P N lossy v = some t) := by
+  refine ⟨GenS.fmt_eq W P N lossy v hv, ?_⟩
+  intro t ht
+  rw [GenS.fmt_eq W P N lossy v hv]
+  unfold PodStr.asStr at ht
+  split at ht
+  · rename_i hval
+    cases ht
+    rw [hl _ hval]
+  · cases ht
+
 end Stevia.C14
